@@ -55,6 +55,26 @@ class BuiltinMixin(object):
             raise OutOfReach('builtin %s' % name)
         return m(st, args, kwargs, fr)
 
+    def _minmax(self, st, args, kwargs, is_max):
+        """max(a, b, ...) / min(a, b, ...) over two or more integers (the iterable form and key= are not modelled)"""
+        if kwargs or len(args) < 2:
+            raise OutOfReach('max/min form')
+        ts = []
+        for a in args:
+            if a.is_py and isinstance(a.py, bool) or (not a.is_py and a.ty.kind != 'int') or (a.is_py and not isinstance(a.py, int)):
+                raise OutOfReach('max/min of non-integers')
+            ts.append(self.term(a, 'I'))
+        r = ts[0]
+        for t in ts[1:]:
+            r = z3.If(t > r, t, r) if is_max else z3.If(t < r, t, r)
+        yield st, SV(r, INT)
+
+    def bi_max(self, st, args, kwargs, fr):
+        return self._minmax(st, args, kwargs, True)
+
+    def bi_min(self, st, args, kwargs, fr):
+        return self._minmax(st, args, kwargs, False)
+
     def bi_len(self, st, args, kwargs, fr):
         (x,) = args
         if x.is_py:
@@ -372,6 +392,9 @@ class BuiltinMixin(object):
                 return
             if isinstance(v, CondList):
                 yield st, mk(SetOf('condlist', v))
+                return
+            if isinstance(v, DictValues) and not v.d.is_py and v.d.ty.kind == 'dict':
+                yield st, mk(SetOf('dictvalues', v.d))
                 return
             if isinstance(v, str):
                 yield st, mk(frozenset(v))
@@ -958,6 +981,21 @@ class SetOf(object):
                 first = first if not isinstance(first, bool) else z3.BoolVal(first)
                 terms.append(z3.If(first, 1, 0))
             return st, SV(z3.Sum(*terms) if terms else z3.IntVal(0), INT)
+        if self.kind == 'dictvalues':
+            # number of distinct values of a dict: an uninterpreted function of its key set and value map, between 1 (for
+            # a non-empty dict) and the number of keys, equal to the number of keys exactly when no two keys share a value
+            d = self.src
+            a = d.term
+            code = code_of(d.ty.args[0])
+            dom = ex.H(st, 'Dd')[a]
+            vals = ex.H(st, 'Dv.' + code)[a]
+            size = ex.uf('dsize', z3.ArraySort(StrS, BoolS), IntS)(dom)
+            dc = ex.uf('dvalues_distinct', dom.sort(), vals.sort(), IntS)(dom, vals)
+            k1 = fresh('k1', StrS)
+            k2 = fresh('k2', StrS)
+            inj = z3.ForAll([k1, k2], z3.Implies(z3.And(dom[k1], dom[k2], k1 != k2), vals[k1] != vals[k2]))
+            st = st.assume(z3.And(dc >= 0, dc <= size, z3.Implies(size > 0, dc >= 1), (dc == size) == inj))
+            return st, SV(dc, INT)
         raise OutOfReach('cardinality of set(%s)' % self.kind)
 
 
